@@ -144,7 +144,7 @@ func runSession(p *Plan, faults []Fault) (w *World, infra string) {
 		}
 		a := w.NewAgents()
 		for i := range p.Ops {
-			c09Exec(a, &p.Ops[i])
+			c15Exec(a, &p.Ops[i])
 		}
 		w.SimSecs = w.result().SimSecs
 	})
